@@ -5,6 +5,7 @@ import random
 from fractions import Fraction as Fr
 
 import casadi as ca
+import numpy as np
 
 from .. import families as fam
 from ..dsl import (Cfg, Spec, Sym, Con, E, X, U, Pg, Vg, t, T, t0, tf, nl1, nl2, at_t0, at_tf, integral, sum_, C)
@@ -65,6 +66,8 @@ def instances(tier, seed):
     # an evolved-versus-fresh comparison inside one process would be blind to state shared between grid objects)
     for N_ in (3, 4):
         add(kind='density-history', N=N_)
+    # a callback declared once keeps working (on the CURRENT transcription) after the method is re-declared
+    add(kind='callback-history')
     meths = [('MS', 'rk', 1), ('SS', 'rk', 2), ('DC', None, 1)]
     # grids with localized time variables keep their own state in the method object; a grid='inf' constraint keeps per-interval conversions
     hgrids = [fam.G_UNI, fam.G_UNI, fam.G_UNI_LT, fam.G_FREE, fam.G_GEO_LOC_LT, fam.G_UNI_LT0]
@@ -319,7 +322,46 @@ def run_density_history(item):
     return res
 
 
+def run_callback_history(item):
+    """GROUND (the callback is invoked by the numeric solver): declare, method(N=2), callback(f), solve, method(N=3), solve - the second solve must run and hand f
+    a solution object of the current transcription (N+1 = 4 control samples)"""
+    from rockit import Ocp, MultipleShooting
+    viol, proved = [], []
+    seen = []
+    try:
+        with quiet():
+            ocp = Ocp(T=1)
+            x = ocp.state()
+            u = ocp.control()
+            ocp.set_der(x, u)
+            ocp.add_objective(ocp.integral(u ** 2) + ocp.at_tf(x) ** 2)
+            ocp.subject_to(ocp.at_t0(x) == 1)
+            ocp.method(MultipleShooting(N=2))
+            ocp.solver('ipopt', {'ipopt.max_iter': 2, 'ipopt.print_level': 0, 'print_time': False})
+            ocp.callback(lambda it, sol: seen.append(len(np.atleast_1d(sol.sample(x, grid='control')[1]))))
+            ocp.solve_limited()
+            n1 = len(seen)
+            first = list(seen)
+            ocp.method(MultipleShooting(N=3))
+            ocp.solve_limited()
+        if n1 == 0 or len(seen) == n1:
+            viol.append({'property': PROP, 'key': 'callback-history|not-called', 'label': 'callback', 'detail': 'callback invocations: %d during the first solve, %d during the solve after method() was re-declared' % (n1, len(seen) - n1)})
+        elif set(first) != {3} or set(seen[n1:]) != {4}:
+            viol.append({'property': PROP, 'key': 'callback-history|stale-solution', 'label': 'callback', 'detail': 'the callback saw %s control samples in the first solve (N=2: 3 expected) and %s in the second (N=3: 4 expected)' % (sorted(set(first)), sorted(set(seen[n1:])))})
+        else:
+            proved.append('callback runs on the current transcription after method() was re-declared (ground)')
+    except Exception as e:
+        viol.append({'property': PROP, 'key': 'callback-history|raises', 'label': 'solve after method()', 'detail': 'declare, method(N=2), callback(f), solve, method(N=3), solve: the second solve raised: %s' % str(e).strip().splitlines()[-1][:200]})
+    res = {'stats': {'unsat': 0, 'sat': 0, 'unknown': 0, 'queries': 0, 'solver_s': 0.0}, 'obligations': len(proved) + len(viol), 'discharged': len(proved), 'nontrivial': proved, 'violations': viol,
+           'twins_ok': 0, 'twins_bad': 0, 'shape': 'callback-history', 'sample': {'history': ['method(N=2)', 'callback(f)', 'solve', 'method(N=3)', 'solve']}}
+    if viol:
+        res['status'] = 'violation'
+    return res
+
+
 def run(item):
+    if item.get('kind') == 'callback-history':
+        return run_callback_history(item)
     if item.get('kind') == 'multistage':
         return run_multistage(item)
     if item.get('kind') == 'density-history':
